@@ -5,7 +5,34 @@ from harness.common import Check, run_check
 from harness import gens as G
 
 
+def impl_history(case):
+    """one collection object, queried, edited in place, queried again: every answer is for the strings held then"""
+    from paulie import get_pauli_string, PauliString, average_otoc, average_graph_complexity
+    P = lambda s: PauliString(pauli_str=s)  # noqa: E731
+    g = get_pauli_string(case["gens"])
+    steps = []
+    for st in case["steps"]:
+        if st[0] == "append":
+            g.append(P(st[1]))
+        elif st[0] == "remove":
+            g.remove(P(st[1]))
+        elif st[0] == "contract":
+            g.contract(P(st[1]), P(st[2]))
+        rec = {"gens": [str(x) for x in g.get()]}
+        try:
+            rec["otoc"] = average_otoc(g, P(case["v"]), P(case["w"]))
+            rec["otoc_again"] = average_otoc(g, P(case["v"]), P(case["w"]))
+            if case.get("complexity"):
+                rec["complexity"] = average_graph_complexity(g, P(case["v"]))
+        except Exception as e:  # noqa
+            rec["exc"] = type(e).__name__
+        steps.append(rec)
+    return {"steps": steps}
+
+
 def impl(case):
+    if case.get("op") == "history":
+        return impl_history(case)
     from paulie import get_pauli_string, PauliString, average_otoc, average_graph_complexity, fourpoint
     g = get_pauli_string(case["gens"])
     P = lambda s: PauliString(pauli_str=s)  # noqa: E731
@@ -126,10 +153,61 @@ def main():
             nt.add((tuple(c["gens"]), c["v"], c["w"]))
         if bad:
             ck.fail(None, "G=%s V=%s W=%s: %s" % (c["gens"], c["v"], c["w"], "; ".join(bad)), {"case": c, "implementation": r, "model_counts": [a, s], "differences": bad})
+    # the same collection object queried, edited in place and queried again
+    hist = []
+    for _ in range(200 if ck.quick else 2000):
+        n = ck.rng.randint(2, 3 if ck.quick else 4)
+        g = [G.uniform(ck.rng, n) for _ in range(ck.rng.randint(1, 3))]
+        cur = list(dict.fromkeys(g))
+        steps = [["query"]]
+        for _ in range(ck.rng.randint(1, 3)):
+            r = ck.rng.random()
+            if r < 0.6 or len(cur) < 2:
+                x = G.uniform(ck.rng, n); steps.append(["append", x])
+                if x not in cur:
+                    cur.append(x)
+            elif r < 0.8:
+                x = ck.rng.choice(cur); steps.append(["remove", x]); cur.remove(x)
+            else:
+                pairs = [(a, b) for a in cur for b in cur if a != b and G.anti(a, b)]
+                if pairs:
+                    a, b = ck.rng.choice(pairs); steps.append(["contract", a, b]); cur[cur.index(a)] = G.mul(a, b)
+                else:
+                    x = G.uniform(ck.rng, n); steps.append(["append", x])
+                    if x not in cur:
+                        cur.append(x)
+        hist.append({"op": "history", "gens": g, "steps": steps, "v": G.uniform(ck.rng, n), "w": G.uniform(ck.rng, n), "n": n, "complexity": n <= 3})
+    hres = ck.impl("c15", hist, per_case_s=300)
+    hreq, hmap = [], []
+    for hi, (c, r) in enumerate(zip(hist, hres)):
+        for si, st in enumerate(r.get("steps", [])):
+            if st["gens"]:
+                hreq += ["otoc %d %s %s %s" % (c["n"], c["v"], c["w"], " ".join(st["gens"])), "complexity %d %s %s" % (c["n"], c["v"], " ".join(st["gens"]))]
+                hmap.append((hi, si))
+    hans = ck.oracle(hreq, procs=8)
+    stats["history_queries"] = len(hmap)
+    for k, (hi, si) in enumerate(hmap):
+        c, st = hist[hi], hres[hi]["steps"][si]
+        a, s_ = map(int, hans[2 * k].split())
+        cs, cn = map(int, hans[2 * k + 1].split())
+        bad = []
+        if "exc" in st:
+            bad.append("raised %s" % st["exc"])
+        else:
+            if abs(Fraction(st["otoc"]) - (1 - 2 * Fraction(a, s_))) > Fraction(1, 10 ** 12):
+                bad.append("average_otoc = %r on the collection now holding %s, orbit definition gives 1 - 2*%d/%d" % (st["otoc"], st["gens"], a, s_))
+            if st["otoc_again"] != st["otoc"]:
+                bad.append("repeated call answers %r then %r" % (st["otoc"], st["otoc_again"]))
+            if "complexity" in st and abs(Fraction(st["complexity"]) - Fraction(cs, cn)) > Fraction(1, 10 ** 12):
+                bad.append("average_graph_complexity = %r, mean distance %d/%d" % (st["complexity"], cs, cn))
+        if bad:
+            ck.fail(None, "after in-place edits %s of one collection object (V=%s W=%s): %s" % (c["steps"][:si + 1], c["v"], c["w"], "; ".join(bad)),
+                    {"case": dict(c, steps=c["steps"][:si + 1]), "differences": bad})
     stats["orbit_sizes"] = dict(sorted(stats["orbit_sizes"].items())[:12])
-    ck.cov["evaluations"] = len(cases)
+    ck.cov["evaluations"] = len(cases) + len(hmap)
     ck.cov["distinct_nontrivial"] = len(nt)
-    ck.cov["rule"] = ("(G, V, W) with n<=%d: structured/uniform G, V uniform / a generator / fixed by G / identity, W uniform or = V; floats compared with the model's exact rationals 1-2a/s; "
+    ck.cov["rule"] = ("one collection object queried, edited in place (append/remove/contract) and queried again, every answer against the strings held then; "
+                      "(G, V, W) with n<=%d: structured/uniform G, V uniform / a generator / fixed by G / identity, W uniform or = V; floats compared with the model's exact rationals 1-2a/s; "
                       "metamorphic: swap V,W, replace G by contractions/added products; graph complexity vs level-BFS mean distance; fourpoint vs its definition; non-trivial = orbit larger than 1 with 0<a<s" % nmax)
     ck.cov["samples"] = [{k: c[k] for k in ("gens", "v", "w")} for c in cases[:3]]
     ck.cov["distribution"] = stats
